@@ -6,7 +6,9 @@
        t is F cut short (all tokens but the last literally F's, absolute indices included; the last one equal, or an unquoted
        scalar that is a non-empty prefix of the unquoted scalar / header at that place), or
        exactly one top-level container was open and was closed by the parser as a non-mixed Object:
-       t = F[0..p) ++ O:<len-1>:0 :: body ++ [E:p], F[p] a container, body = F[p+1..) cut short.
+       t = F[0..p) ++ O:<len-1>:0 :: body ++ [E:p], F[p] an OBJECT token (stricter than the Coq predicate, which says "a
+       container": the code never closes an array for the user -- inside an array the state is ArrayValue, not Key -- so an
+       auto-closed array, `a={1 2 3` read as the object 1=2 3=?, would be fabricated structure), body = F[p+1..) cut short.
    The older oracle of props/C19_text.py leaves the last TWO top-level items free (a whole nested container may differ);
    this one leaves exactly one token free.
    Inputs: the general generator plus DIRECTED documents whose last top-level field ends in each of the constructs the
@@ -115,7 +117,7 @@ def consistent_tape(F, t):
         return None
     if t and t[-1].startswith("E:"):
         p = int(t[-1][2:])
-        if 0 < p < len(t) - 1 and p < len(F) and t[p] == "O:%d:0" % (len(t) - 1) and t[:p] == F[:p] and F[p][:2] in CONT \
+        if 0 < p < len(t) - 1 and p < len(F) and t[p] == "O:%d:0" % (len(t) - 1) and t[:p] == F[:p] and F[p][:2] == "O:" \
                 and prefix_cut(t[p + 1:-1], F[p + 1:]):
             return None
         return "neither the complete tape cut short nor one auto-closed top-level container (the parser closed the container at %d)" % p
